@@ -555,6 +555,14 @@ func runC14(c *core.Ctx, o Options) {
 	// Q6: the reply that the session queued is taken off the queue by the connection's writer and written — not measured and dropped
 	checkNoMessageDropped(c, "Q6")
 	c.Explanation += " Q6 (= C04.F7): the reply the session queued is taken off the queue by the connection's writer and written — no path receives a message from a byte-message channel and lets it go."
+	s.checkCallbacksOutsideStateLock("Q3")
+	// Q4 (premises): the end-of-message test of the connection reader is start-anchored (a TestReqID containing "10=" does not cut
+	// the message), and the value formatters emit a populated value as it is (a blank-only TestReqID is still echoed)
+	if rr := c.Func("", "Conn.runReader"); rr != nil {
+		needleCensus(c, "Q4", []*ssa.Function{rr})
+	}
+	checkCodecs(c, "Q4", map[string]bool{"tobytes": true, "isnull": true})
+	c.Explanation += " Q3 also: event subscribers and the logon callback run with no session mutex held. Q4 premises: the reader's end-of-message test is start-anchored; value formatters emit a populated value as it is."
 	c.RuleMin = map[string]int{"Q0": 8, "Q1": 1, "Q2": 1, "Q3": 7, "Q4": 12, "Q5": 1, "Q6": 5}
 	c.MinObl = 7
 }
